@@ -36,6 +36,15 @@ def rotations(rng, N):
     k = max(8, N // 50)
     axis = np.concatenate([axis, O.random_axes(rng, k), np.eye(3), -np.eye(3)])
     ang = np.concatenate([ang, np.full(k, PI), np.full(6, PI)])
+    # axes a hair off a coordinate axis (1e-8..1e-2 rad) with large angles: the matrix->quaternion branch choice is
+    # then between a tiny and a large component (precision of the chosen pivot)
+    k2 = max(60, N // 20)
+    base = np.eye(3)[rng.integers(0, 3, k2)] * rng.choice([-1.0, 1.0], (k2, 1))
+    off = O.random_axes(rng, k2) * O.loguniform(rng, 1e-8, 1e-2, k2)[:, None]
+    ax2 = base + off
+    ax2 /= np.linalg.norm(ax2, axis=1, keepdims=True)
+    axis = np.concatenate([axis, ax2])
+    ang = np.concatenate([ang, rng.uniform(2.1, PI, k2)])
     return axis, ang
 
 
